@@ -159,8 +159,16 @@ def cases(tier, seed):
                 v = int(max(1, round(v)))
         elif mode == "sequence-bad":
             v = _sequence(r, c, int(r.integers(2, 7)))
-            v[int(r.integers(len(v)))] += float(c * (1e-3 if r.integers(2) else -2e-3) * r.uniform(1, 20))
-            v = [abs(x) + 1e-3 for x in v]
+            # miss the height by 1e-3 .. 5e-2 relative: stretch one slice, or all of them, or append a slice
+            delta = float(c * (1 if r.integers(2) else -1) * 10 ** r.uniform(-3, -1.3))
+            how = int(r.integers(3))
+            if how == 0:
+                j = int(np.argmax(v))
+                v[j] = float(v[j] + delta)
+            elif how == 1:
+                v = [float(x * (1 + delta / c)) for x in v]
+            else:
+                v = v + [abs(delta)]
         else:
             v = _sequence(r, c, int(r.integers(1, 9)) if i % 2 else int(r.integers(2, 40)))
         yield dict(kind="thickness", height=float(c), mode=mode, value=v)
@@ -246,14 +254,12 @@ def _run_reslice(case):
     out.append(Res("C09/reslicing/projected-potential-invariant", ok1,
                    f"one slice vs the same atoms at mid-height; z of atoms {[p_[2] for p_ in at['positions']]}, height {c}: "
                    f"{msg1}", bool(np.any(ref != 0))))
-    seen = set()
     for sl in case["slicings"]:
         p = _pot(atoms, case, _st(sl))
         _check_sum(out, p, c, f"slice_thickness={sl}")
         built = p.build(lazy=False)
         got = np.asarray(built.project().array)
         ok, msg = _cmp(got, ref)
-        seen.add(built.array.shape[0])
         out.append(Res("C09/reslicing/projected-potential-invariant", ok,
                        f"slice_thickness={sl} ({built.array.shape[0]} slices) vs one slice at mid-height; z of atoms "
                        f"{[p_[2] for p_ in at['positions']]}, height {c}: {msg}",
